@@ -1712,6 +1712,16 @@ send_task(int whither, echs_task_t t)
 			fdprintf("ATTENDEE:%s\n", *ap);
 		}
 	}
+	with (nummapstr_t o = t->owner) {
+		const char *tmps;
+		uintptr_t tmpn;
+
+		if ((tmps = nummapstr_str(o))) {
+			fdprintf("X-ECHS-OWNER:%s\n", tmps);
+		} else if ((tmpn = nummapstr_num(o)) != NUMMAPSTR_NAN) {
+			fdprintf("X-ECHS-OWNER:%u\n", (unsigned int)tmpn);
+		}
+	}
 	if (t->in) {
 		fdprintf("X-ECHS-IFILE:%s\n", t->in);
 	}
